@@ -190,7 +190,14 @@ def c10_2(c: Ctx) -> None:
             c.ok(where(u, arm), 'a handler timeout records the error result on every path')
         else:
             c.fail(u, 'the timeout path can leave the arm without recording an error result', "a timed-out handler's result never becomes an error: the event never completes", node=arm, witness=c.path(en, p))
-        p = typed_search(g, en, env0, lambda n, d: leaves(n), lambda n, d: is_cancel(n), facts)
+        # (decided for an event that has children: without any the call has nothing to do, and a `if event.event_children:` around it skips nothing)
+        ev_ = u.params()[1]
+        kids = f'{ev_}.event_children'
+        old_tracked = facts.tracked
+        facts.tracked = lambda a, _t=old_tracked: a == kids or _t(a)
+        facts.sticky_true = set(facts.sticky_true) | {kids}
+        p = typed_search(g, en, {**env0, kids: 'T'}, lambda n, d: leaves(n), lambda n, d: is_cancel(n), facts)
+        facts.tracked = old_tracked
         if p is None:
             c.ok(where(u, arm), 'a handler timeout cancels pending child results on every path')
         else:
